@@ -103,3 +103,20 @@ meta("C08",
      "returns and the actor handles one request at a time; the RPC response carries the actor's id vector through order-preserving calls.",
      ["first-delivery order as observed by concurrent consumers (schedule property)"],
      ["VecDeque / Vec / iterator adapter semantics as documented; mpsc FIFO"])
+
+meta("C04",
+     "'Never earlier' and timer structure: the schedule is popped only on the branch where now >= deadline (relation analysis of the guarding "
+     "comparison), `now` is Instant::now() unshifted; the hand-out deadline is Instant::now() + info.ack_deadline and the rounding only adds; "
+     "interval analysis of the >=10 s clamp; the timer sleeps until the first key of the schedule, is raced against the tracker's Notify, every "
+     "schedule mutator notifies, and the actor loop polls the expiry coroutine; plus the tracker pairing invariant (old ack id inert), fresh "
+     "ack ids, and requeue+notify on expiry.",
+     ["the upper bound (no later than a sub-second slack after the deadline)", "the exact rounding grid arithmetic"],
+     ["tokio time::sleep_until fires at or after its deadline; BTreeSet::first is the minimum"])
+
+meta("C15",
+     "Batch bound: in the pop loop `len(result) >= capacity` is tested after every push and ends the loop, and the capacity is derived from "
+     "the limit parameter only through clamp(_, 0, _) / min / widening (bound domain G6); the limit handed to the actor comes from the request "
+     "field through non-increasing conversions (the i32->u16 truncation is listed); an empty PullResponse is only constructed under "
+     "return_immediately or after the constant timer; each streamed item is built from the pull of the same iteration.",
+     ["numeric wrap beyond the bound argument"],
+     ["Ord::clamp / min semantics"])
